@@ -140,12 +140,14 @@ class Ctx:
                                         {"actions": {k: v[1] for k, v in cov.items()}})
         return res
 
-    def tlc_generate(self, module, cfg, deps, timeout=1800, env=None, cache=True):
+    def tlc_generate(self, module, cfg, deps, timeout=1800, env=None, cache=True, extra_args=()):
         """Run TLC (1 worker) as a generator of EDGE/VEC lines; the output is a function of the
         specification only, so it is cached under work/gen keyed by the hash of the spec files."""
         gen = WORK / "gen"
         gen.mkdir(parents=True, exist_ok=True)
         key = spec_hash(f"{module}.tla", cfg, *deps) + ("-" + hashlib.sha256(json.dumps(env, sort_keys=True).encode()).hexdigest()[:8] if env else "")
+        if extra_args:
+            key += "-" + hashlib.sha256(json.dumps([str(a) for a in extra_args]).encode()).hexdigest()[:8]
         outp = gen / f"{cfg}.{key}.out"
         if cache and outp.exists() and outp.stat().st_size > 0:
             return outp
@@ -153,7 +155,7 @@ class Ctx:
             old.unlink()
         md = self.work / f"mdg-{cfg}"
         tmp = gen / f"{cfg}.{key}.tmp"
-        rc, _ = self._tlc(["-workers", "1", "-metadir", str(md), "-cleanup", "-noGenerateSpecTE",
+        rc, _ = self._tlc(["-workers", "1"] + [str(a) for a in extra_args] + ["-metadir", str(md), "-cleanup", "-noGenerateSpecTE",
                            "-config", str(SPEC / cfg), str(SPEC / f"{module}.tla")], timeout=timeout, out=tmp, env=env)
         shutil.rmtree(md, ignore_errors=True)
         text_tail = tmp.read_text(errors="replace")[-3000:] if tmp.stat().st_size < 50_000_000 else ""
